@@ -56,6 +56,12 @@ func replaySerial(pre []*txh.Model, res []txh.CResult, order []int, final []txh.
 				if !mm.RemoveUnique(o.Op.K) {
 					return false, fmt.Sprintf("p%d %s succeeded but in this order the key does not exist", pi, o.Op)
 				}
+			case "rmv":
+				vs := mm.Values(o.Op.K)
+				if len(vs) != 1 || vs[0] != o.Read {
+					return false, fmt.Sprintf("p%d %s read %s before removing the item but in this order the value is %v", pi, o.Op, txh.Short(o.Read), shortAll(vs))
+				}
+				mm.RemoveUnique(o.Op.K)
 			}
 		}
 	}
@@ -128,7 +134,7 @@ func TestC02_Serializable(t *testing.T) {
 			n := rapid.IntRange(1, 5).Draw(t, fmt.Sprintf("nops%d", w))
 			for j := 0; j < n; j++ {
 				tag++
-				kinds := []string{"get", "get", "rmw", "rmw", "update", "add", "addIfNotExist", "upsert", "remove"}
+				kinds := []string{"get", "get", "rmw", "rmw", "update", "add", "addIfNotExist", "upsert", "remove", "rmv"}
 				if progs[w].Mode == sop.ForReading {
 					kinds = []string{"get"}
 				}
@@ -142,7 +148,18 @@ func TestC02_Serializable(t *testing.T) {
 				}
 			}
 		}
-		schedule := genSchedule(t, nt)
+		mode := rapid.IntRange(0, 5).Draw(t, "scheduleMode") // 0 starve; 1,2 directed; else free-form
+		var schedule []int
+		var directed []txh.Seg
+		switch {
+		case mode == 0:
+			schedule = genStarve(t, nt)
+		case mode <= 2:
+			directed = genDirected(t, nt)
+		default:
+			schedule = genSchedule(t, nt)
+		}
+		cold := rapid.IntRange(0, 3).Draw(t, "coldNodeCaches") == 0
 		uuidSeed := rapid.Uint64().Draw(t, "uuidSeed")
 		e, err := txh.NewEnv(rapid.SampledFrom([]int{1, 3, 16}).Draw(t, "hashMod"))
 		if err != nil {
@@ -154,12 +171,15 @@ func TestC02_Serializable(t *testing.T) {
 		if err != nil {
 			t.Fatalf("HARNESS-ERROR %v", err)
 		}
-		res, s := e.RunConcurrent(stores, progs, schedule, txh.ConcOpts{GateCommits: knownSnapshot, MaxTime: 10 * time.Second, Budget: 90 * time.Second})
+		if cold {
+			e.EvictNodeCaches()
+		}
+		res, s := e.RunConcurrent(stores, progs, schedule, txh.ConcOpts{GateCommits: knownSnapshot, Strict: mode == 0, Directed: directed, MaxTime: 10 * time.Second, Budget: 90 * time.Second})
 		var sdesc []string
 		for i, st := range stores {
 			sdesc = append(sdesc, fmt.Sprintf("%s{slot=%d %s seed=%v}", st.Name, st.Slot, txh.PlacementNames[st.Placement], seed[i]))
 		}
-		desc := fmt.Sprintf("%s %s schedule=%s", strings.Join(sdesc, " "), renderProgs(progs), renderSched(schedule))
+		desc := fmt.Sprintf("%s %s schedule=%s strict=%v directed=[%s] coldCaches=%v", strings.Join(sdesc, " "), renderProgs(progs), renderSchedRLE(schedule), mode == 0, renderSegs(directed), cold)
 		if s.TimedOut {
 			rec.Discard()
 			return
@@ -237,6 +257,21 @@ func TestC02_Serializable(t *testing.T) {
 		if s.Switches > 0 {
 			labels = append(labels, "contextSwitches")
 		}
+		if mode == 0 {
+			labels = append(labels, "starvationSchedule")
+		}
+		if len(directed) > 0 {
+			labels = append(labels, "directedSchedule")
+		}
+		if cold {
+			labels = append(labels, "coldNodeCaches")
+		}
+		for _, r := range res {
+			if mergePasses(r) >= 2 {
+				labels = append(labels, "mergedTwiceOrMore")
+				break
+			}
+		}
 		for _, r := range res {
 			if r.Prog.End == "commit" && !r.Committed {
 				labels = append(labels, "commitRefused")
@@ -260,14 +295,14 @@ func reorderForKnownStalePointerMulti(p *txh.TxnProg) bool {
 			touched := map[int]bool{}
 			for i, o := range p.Ops {
 				switch o.Kind {
-				case "add", "addIfNotExist", "upsert", "remove":
+				case "add", "addIfNotExist", "upsert", "remove", "rmv":
 					if touched[o.S] {
 						p.Ops = p.Ops[:i]
 						return true
 					}
 				}
 				switch o.Kind {
-				case "get", "rmw", "update", "upsert", "remove":
+				case "get", "rmw", "update", "upsert", "remove", "rmv":
 					touched[o.S] = true
 				}
 			}
@@ -281,7 +316,7 @@ func reorderForKnownStalePointerMulti(p *txh.TxnProg) bool {
 		switch k {
 		case "add", "addIfNotExist":
 			return 0
-		case "remove":
+		case "remove", "rmv":
 			return 1
 		case "upsert":
 			return 3
